@@ -175,7 +175,11 @@ class ChangeScenario(Scenario):
             h = dict(h)
             hid, on = h.pop('id'), h.pop('on')
             script = parse_script(h.pop('script', ['ok']))
-            if on == 'daemon' and h.pop('body', 'reaction') == 'reaction':
+            if on == 'daemon' and h.get('body') == 'sync':
+                from kv.harness.op import daemon_sync_fn
+                h.pop('body')
+                fn = daemon_sync_fn(env, hid, duration=h.pop('duration', 8.0))
+            elif on == 'daemon' and h.pop('body', 'reaction') == 'reaction':
                 from kv.harness.op import daemon_fn
                 fn = daemon_fn(env, hid, reaction=h.pop('reaction', 'obeys'), lifetime=h.pop('lifetime', None),
                                exit_delay=h.pop('exit_delay', 0.0))
